@@ -664,6 +664,8 @@ func ReadFunction(env *Zlisp, name string, args []Sexp) (sx Sexp, err error) {
 	}
 	env.parser.ResetAddNewInput(bytes.NewBuffer([]byte(str)))
 	//exp, err := env.parser.ParseExpression(0)
+	// a text that holds no expression reads as nil, never as Go's nil
+	sx = SexpNull
 	// have to use the iter interface...once.
 	for reply := range env.parser.ParsingIter() {
 		err = reply.Err
